@@ -821,6 +821,88 @@ Definition rounding_guards_gen : list string := ["ts column is not float64"; "ns
     return "gen/Rounding_gen.v"
 
 
+# ---- CudaKernelAnalysis.cuda_kernel_launch_stats (hta/analyzers/cuda_kernel_analysis.py) -> coq/gen/LaunchStats_gen.v ----
+def gen_launch_stats() -> str:
+    """Reads cuda_kernel_launch_stats statement by statement (strict shape): the symbol look-ups `x = sym_index.get("<name>", None)`
+    inside the per-rank loop, the list `launch_ids`, the two memory names of the `|` mask, the host / device split on stream -1, the
+    isin(merged_series) selections, the inner merge on correlation, `launch_delay = ts_y - ts_x - dur_x` clipped at 0, the result
+    columns.  Every statement of the loop body must be one of these, in this order; nothing may be hoisted out of the loop."""
+    path = "hta/analyzers/cuda_kernel_analysis.py"
+    tree = ast.parse(open(os.path.join(fw.REPO, path)).read())
+    cls = next((n for n in tree.body if isinstance(n, ast.ClassDef) and n.name == "CudaKernelAnalysis"), None)
+    fn = next((n for n in (cls.body if cls else []) if isinstance(n, ast.FunctionDef) and n.name == "cuda_kernel_launch_stats"), None)
+    if fn is None:
+        raise Stop("CudaKernelAnalysis.cuda_kernel_launch_stats not found")
+    body = [st for st in fn.body if not (isinstance(st, ast.Expr) and isinstance(st.value, ast.Constant))]
+    pre = [ast.unparse(st) for st in body[:-2]]
+    want_pre = ["if ranks is None or ranks == []:\n    ranks = [0]", "result_dict: Dict = {}", "sym_index = t.symbol_table.get_sym_id_map()"]
+    if pre != want_pre:
+        raise Stop(f"cuda_kernel_launch_stats: statements before the rank loop are {pre}, expected {want_pre}")
+    loop, ret = body[-2], body[-1]
+    if not (isinstance(loop, ast.For) and ast.unparse(loop.target) == "rank" and ast.unparse(loop.iter) == "ranks" and not loop.orelse):
+        raise Stop("cuda_kernel_launch_stats: no `for rank in ranks` loop")
+    if ast.unparse(ret) != "return result_dict":
+        raise Stop("cuda_kernel_launch_stats: does not end with `return result_dict`")
+    names: Dict[str, str] = {}
+    rest = []
+    for st in loop.body:
+        if isinstance(st, ast.Assign) and len(st.targets) == 1 and isinstance(st.targets[0], ast.Name) and isinstance(st.value, ast.Call) \
+                and ast.unparse(st.value.func) == "sym_index.get":
+            a = st.value.args
+            if not (len(a) == 2 and isinstance(a[0], ast.Constant) and isinstance(a[0].value, str) and ast.unparse(a[1]) == "None"):
+                raise Stop(f"cuda_kernel_launch_stats: look-up `{ast.unparse(st)[:80]}`")
+            names[st.targets[0].id] = a[0].value
+        else:
+            rest.append(st)
+    texts = [ast.unparse(st) for st in rest]
+
+    def ids_of(txt):
+        return [x.strip() for x in txt.strip("[]").split(",") if x.strip()]
+    if not (len(texts) == 15 and texts[0] == "trace_df: pd.DataFrame = t.get_trace(rank)" and texts[1].startswith("launch_ids = [")):
+        raise Stop(f"cuda_kernel_launch_stats: loop body has {len(texts)} statements besides the look-ups, or does not start as expected")
+    launch = ids_of(texts[1][len("launch_ids = "):])
+    if any(x not in names for x in launch):
+        raise Stop("cuda_kernel_launch_stats: launch_ids holds something that is not a looked-up symbol")
+    if texts[2] != "cuda_launch_kernel_correlation_series: pd.Series = trace_df[trace_df['name'].isin(launch_ids)].correlation":
+        raise Stop(f"cuda_kernel_launch_stats: launch series is `{texts[2][:100]}`")
+    m = re.fullmatch(r"if include_memory_events:\n    memory_event_correlation_series: pd\.Series = trace_df\[\(trace_df\['name'\] == (\w+)\) \| "
+                     r"\(trace_df\['name'\] == (\w+)\)\]\.correlation\n    merged_series: pd\.Series = pd\.concat\(\[cuda_launch_kernel_correlation_series, "
+                     r"memory_event_correlation_series\]\)\nelse:\n    merged_series = cuda_launch_kernel_correlation_series", texts[3])
+    if not m or m.group(1) not in names or m.group(2) not in names:
+        raise Stop(f"cuda_kernel_launch_stats: the include_memory_events block is `{texts[3][:160]}`")
+    mem = [m.group(1), m.group(2)]
+    want = ["cpu_kernels = trace_df[trace_df['stream'].eq(-1)].copy()",
+            "gpu_kernels = trace_df[trace_df['stream'].ne(-1)].copy()",
+            "cpu_kernels_filtered = cpu_kernels[cpu_kernels['correlation'].isin(merged_series)][['correlation', 'dur', 'name', 'ts']]",
+            "gpu_kernels_filtered = gpu_kernels[gpu_kernels['correlation'].isin(merged_series)][['correlation', 'dur', 'name', 'ts']]",
+            "joined_df = pd.merge(cpu_kernels_filtered, gpu_kernels_filtered, how='inner', on='correlation')",
+            "joined_df['launch_delay'] = joined_df['ts_y'] - joined_df['ts_x'] - joined_df['dur_x']",
+            "joined_df['launch_delay'] = joined_df['launch_delay'].clip(lower=0)",
+            "renamed_df = joined_df.rename(columns={'dur_x': 'cpu_duration', 'dur_y': 'gpu_duration'})",
+            "events_df = renamed_df[['correlation', 'cpu_duration', 'gpu_duration', 'launch_delay']]"]
+    if texts[4:13] != want:
+        bad = next((a for a, b in zip(texts[4:13], want) if a != b), "?")
+        raise Stop(f"cuda_kernel_launch_stats: statement `{bad[:120]}` is not what the model was written for")
+    if not (texts[13].startswith("if visualize:\n    cls.visualize_cuda_launch_kernel_info(") and texts[14] == "result_dict[rank] = events_df"):
+        raise Stop(f"cuda_kernel_launch_stats: the loop does not end with the visualisation and `result_dict[rank] = events_df`")
+    if len(set(names) - set(launch) - set(mem)) != 0:
+        raise Stop("cuda_kernel_launch_stats: a looked-up symbol is used neither as a launch nor as a memory name")
+    out = f'''(* GENERATED by harness/translate.py from hta/analyzers/cuda_kernel_analysis.py (CudaKernelAnalysis.cuda_kernel_launch_stats) -- do not edit.
+   Per rank: correlation ids of the rows named like a launch (plus the two memory launches when asked); host rows (stream -1) and device
+   rows with such an id, inner-joined on the id; launch_delay = max 0 (ts_device - ts_host - dur_host). *)
+From HTA.lib Require Import Base.
+Open Scope Z_scope.
+
+Definition kernel_launch_names_gen : list string :=
+  {fw.sl([names[x] for x in launch])}.
+Definition memory_launch_names_gen : list string :=
+  {fw.sl([names[x] for x in mem])}.
+Definition launch_delay_gen (ts_x dur_x ts_y : Z) : Z := Z.max 0 (ts_y - ts_x - dur_x).
+'''
+    write_if_changed(os.path.join(GEN, "LaunchStats_gen.v"), out)
+    return "gen/LaunchStats_gen.v"
+
+
 # ---- the change classes of hta/trace_diff.py -> coq/gen/DiffRules_gen.v ----
 def gen_diff_rules() -> str:
     """Reads TraceDiff.compare_traces (diff_counts / diff_duration = test minus control; the sign lambda of counts_change_categories) and the
